@@ -456,6 +456,9 @@ pub struct NodeModel {
     pub mid: Option<(usize, u8)>,
     /// armed by a BatchMix event: (node, stmt) forgotten right after the node answered the next PREPARE of it
     pub drop_after_prepare: Option<(usize, usize)>,
+    /// one-shot, world set-up only: this node answers the next PREPARE of the SELECT with an error (so that Session::prepare
+    /// keeps the OTHER node's PREPARED answer: in the mixed cluster that decides whether the statement holds a metadata id)
+    pub refuse_prepare: Option<usize>,
     pub malformed: Vec<String>,
 }
 
@@ -469,6 +472,10 @@ impl NodeModel {
         match ctx.request {
             Request::Prepare { text } => {
                 let stmt = TEXTS.iter().position(|t| t == text)?;
+                if stmt == S && self.refuse_prepare == Some(n) {
+                    self.refuse_prepare = None;
+                    return Some(Reply::error(ErrorBody::overloaded("c14: this node does not take the statement now")));
+                }
                 let node = &mut self.nodes[n];
                 let alt = node.poisoned;
                 node.cache[stmt][alt as usize] = true;
@@ -726,8 +733,9 @@ impl World {
 
     fn new_inner(cfg: Cfg) -> Result<World, String> {
         let rt = shared_runtime();
-        let model = Arc::new(Mutex::new(NodeModel { late: cfg.late, same_id: cfg.same_id, nodes: vec![NodeM::default(); cfg.nodes], trace: Vec::new(), mid: None, drop_after_prepare: None, malformed: Vec::new() }));
+        let model = Arc::new(Mutex::new(NodeModel { late: cfg.late, same_id: cfg.same_id, nodes: vec![NodeM::default(); cfg.nodes], trace: Vec::new(), mid: None, drop_after_prepare: None, refuse_prepare: None, malformed: Vec::new() }));
         let m2 = model.clone();
+        let m3 = model.clone();
         let built = rt.block_on(async move {
             let mut b = MockCluster::builder();
             for i in 0..cfg.nodes {
@@ -744,7 +752,12 @@ impl World {
             }
             let session = sb.build().await.map_err(|e| format!("session did not come up: {e}\n{}", cluster.dump_log()))?;
             let mut handles = Vec::new();
-            for _ in 0..2 {
+            for i in 0..2 {
+                if cfg.mixed {
+                    // handle A is prepared through the extension node only (holds the metadata id), handle B through the node
+                    // WITHOUT the extension only (columns, no id): Session::prepare keeps the first successful answer
+                    m3.lock().unwrap().refuse_prepare = Some(1 - i);
+                }
                 let mut ps = session.prepare(STMT_S).await.map_err(|e| format!("initial prepare: {e}"))?;
                 ps.set_use_cached_result_metadata(cfg.cached);
                 ps.set_timestamp(explicit_ts(cfg));
@@ -804,7 +817,7 @@ impl World {
             usable: if cfg.late { None } else { Some(0) },
             last_id: cfg.any_ext().then(|| if cfg.late && !cfg.same_id { empty_meta_id() } else { meta_id(S, 0) }),
             prep_version: 0,
-            id_unknown: cfg.mixed,
+            id_unknown: false,
         };
         let w = World {
             cfg,
@@ -818,7 +831,9 @@ impl World {
             stmt_l,
             stmt_i,
             policies,
-            refh: vec![first.clone(), first.clone(), first],
+            // mixed: B was prepared through the node without the extension: it holds columns but no id until an extension node
+            // tells it one (it must then present the EMPTY id there; `id_unknown` also tolerates the announced one)
+            refh: vec![first.clone(), RefH { id_unknown: cfg.mixed, ..first.clone() }, RefH { id_unknown: cfg.mixed, ..first }],
             branches: Vec::new(),
             story: Vec::new(),
             verbose: false,
@@ -827,10 +842,10 @@ impl World {
         };
         let mut w = w;
         if cfg.mixed {
-            // Session::prepare keeps the PREPARED answer of whichever node its randomly ordered node map yields first, so the
-            // statement may or may not hold a metadata id. One warm-up EXECUTE per handle on the extension node settles it
-            // (it presents the id, or presents the empty id and is told the id): histories then start from ONE state.
-            for h in 0..(if cfg.entry { 3 } else { 2 }) {
+            // Handles A and B are settled by construction (see above). Handle C (CachingSession, only with `entry`) is prepared
+            // by the CachingSession itself from whichever node the driver's randomly ordered node map yields first: one warm-up
+            // EXECUTE on the extension node settles whether it holds an id, so histories start from ONE state.
+            for h in 2..(if cfg.entry { 3 } else { 2 }) {
                 let fut = w.call_future(Call::Exec, h, 0, 1 + h as i32);
                 let from = w.trace_len();
                 let outcome = w.rt.as_ref().unwrap().block_on(fut);
@@ -846,6 +861,9 @@ impl World {
                                 "VIOLATION setup:warm-up-decoding-failed|warm-up EXECUTE of handle {h} on the extension node: the node encoded {want:?} (metadata attached), the caller saw {other:?}; frames: {:?}",
                                 show_recs(&recs[..])
                             ));
+                        }
+                        if let Some(x) = w.model.lock().unwrap().malformed.first() {
+                            return Err(format!("VIOLATION frame:malformed|warm-up EXECUTE of handle {h} on the extension node: the node could not parse the request as negotiated on that connection: {x}; the caller saw {other:?}"));
                         }
                         return Err(format!("mixed-cluster warm-up EXECUTE failed before the node answered: {other:?}; frames: {:?}", show_recs(&recs[..])));
                     }
